@@ -308,6 +308,7 @@ def verify_function(eng, key, c, fdef=None, module=None):
         ex = Exec(eng, mod, c, trace=list(trace))
         ex.fname = key.split(':')[-1] if c.kind != 'lemma' else 'lemma.' + c.name
         ex.loop_ordinals = ords
+        ex.real_fdef = fdef if c.kind != 'lemma' else None
         res.paths += 1
         if res.paths > MAX_PATHS:
             res.status, res.reason = 'unsupported', 'more than %d paths' % MAX_PATHS
